@@ -304,3 +304,32 @@ Proof. split; vm_compute; reflexivity. Qed.
 Lemma round_to_f16_subnormal_refuted :
   round_to_f16_bits 897589248 = 897589248 /\ ieee_round_to_f16_bits 897589248 = 897581056.
 Proof. split; vm_compute; reflexivity. Qed.
+
+(* evalConstantFloatExpr (2262) on trees without identifiers: every numeric literal token (integer tokens too)
+   is parsed as a float64; + - * / in float64 ("/" by a float zero is an error); unary minus.
+   lowerConstantBinaryExpr (1795) falls back to it when the integer evaluation failed -- for whatever reason,
+   including an integer division by zero -- and then declares the constant as an f32. *)
+Fixpoint eval_constant_float (e : cexpr) : option f64 :=
+  match e with
+  | CLit (LI32 b) | CLit (LU32 b) | CLit (LAI b) => Some (f64_of_Z b)
+  | CLit (LF32 b) | CLit (LF16 b) => Some (f64_of_f32 (f32_of_bits b))
+  | CLit (LAF b) => Some (f64_of_bits b)
+  | CUn UNeg a => option_map neg64f (eval_constant_float a)
+  | CBin op a b =>
+    match eval_constant_float a, eval_constant_float b with
+    | Some x, Some y =>
+      match op with
+      | BAdd => Some (add64f x y) | BSub => Some (sub64f x y) | BMul => Some (mul64f x y)
+      | BDiv => if is_zero64 y then None else Some (div64f x y)
+      | _ => None
+      end
+    | _, _ => None
+    end
+  | _ => None
+  end.
+(* the f32 bit pattern of the constant the fallback creates *)
+Definition mod_const_float_fallback (e : cexpr) : option Z :=
+  match e with
+  | CBin _ _ _ => option_map bits32_of_f64 (eval_constant_float e)
+  | _ => None
+  end.
